@@ -46,7 +46,7 @@ def bearing_degrees(coord1: Coordinate, coord2: Coordinate, **kwargs) -> float:
         math.radians(d_lon)
     )
     bearing = (math.degrees(math.atan2(x_val, y_val)) + 360) % 360
-    return round_half_up(bearing, kwargs.get('precision', 5))
+    return round_half_up(bearing, kwargs.get('precision', 5)) % 360
 
 
 def haversine_distance_meters(coord1: Coordinate, coord2: Coordinate) -> float:
